@@ -185,6 +185,7 @@ def run_case(ctx, rep, case, base, model_ok):
                     if m != impl and not (api == "scan_filter"):
                         rep.diverge("rd.get (_get_all_data_files)", {"request": req, "api": api, **case_rec}, m, impl)
                 cur_start = None
+    case["reader_gates"] = len([1 for a, _w in S.trace if a == 11])
     if case["id"] == 0:
         rep.sample({"timeline_rows": [len(v["rows"]) for v in versions], "schedule": case_rec["schedule"][:60]})
     shutil.rmtree(path, ignore_errors=True)
@@ -200,6 +201,42 @@ def _empty_then_first_append(rng):
             return 1
         return sorted(ready)[0]
     return choose
+
+
+def _writer_after_k(k):
+    """the reader passes k of its gated operations, then writer 1 runs a whole commit, then the reader goes on"""
+    def mk(rng):
+        def choose(s, ready):
+            n = len([1 for a, _w in s.trace if a == 11])
+            if n < k and 11 in ready:
+                return 11
+            if 1 in ready:
+                return 1
+            return sorted(ready)[0]
+        return choose
+    return mk
+
+
+def directed_sweep(ctx, rep, base, model_ok, next_id):
+    """every read API × writer kind: a whole commit placed after each of the reader's gated operations in turn"""
+    stride = 1 if ctx.thorough else 2
+    for api in APIS:
+        for wk in ("append", "delete", "multi"):
+            k = 0
+            while True:
+                c = {"id": next_id, "start_empty": False, "writers": [wk], "readers": [[api]], "chooser": _writer_after_k(k)}
+                next_id += 1
+                try:
+                    run_case(ctx, rep, c, base, model_ok)
+                except sched.Stuck as e:
+                    rep.notes.append(f"directed case {api}/{wk}/k={k} stuck: {e}")
+                    rep.distribution["stuck"] += 1
+                    break
+                rep.distribution["directed"] += 1
+                if k >= c.get("reader_gates", 0):
+                    break
+                k += stride
+    return next_id
 
 
 def cases(ctx):
@@ -221,11 +258,14 @@ def run(ctx, model_ok):
     rep = Report()
     rep.rule = ("1–2 readers (1–3 reads each over scan, parallel scan, scan_batches(1), iter_records, row_count, filtered scan) × 1–3 writers "
                 "(append, two-append transaction, delete files, rollback, failed commit) on the local backend, interleaved at storage-operation "
-                "granularity; directed 'first append lands between the reader's two refreshes' per API first. non-trivial = a flip happened "
-                "during the read.")
+                "granularity; directed: 'first append lands between the reader's two refreshes' per API, and a SWEEP placing one whole commit "
+                "(append / delete / two-append transaction) after each gated storage operation of each read API in turn (every 2nd in the "
+                "quick tier). non-trivial = a flip happened during the read.")
     base = scratch_dir("c02-")
     try:
-        for c in cases(ctx):
+        cs = cases(ctx)
+        directed_sweep(ctx, rep, base, model_ok, len(cs) + 1)
+        for c in cs:
             try:
                 run_case(ctx, rep, c, base, model_ok)
             except sched.Stuck as e:
